@@ -139,6 +139,12 @@ theorem inv_noSpace (s s' : St α) (h : WInv s) (hs : step s .noSpace = some s')
   split at hs <;> simp at hs
   subst hs; inv_close
 
+theorem inv_parentCancel (s s' : St α) (h : WInv s) (hs : step s .parentCancel = some s') : WInv s' := by
+  obtain ⟨fifo, owner, execLe, excl, idleClean, idleFlushed, heldFlushed, storeReady, flushReady, putReady, len1Ready,
+    noStrand, flushedLe, syncNoSender, asyncNoLock, brokenMono, noOwnerBatch, failedBroken, writevBatch, putPos, qLe, batchLe, pollRoom⟩ := h
+  simp only [step] at hs; simp at hs
+  subst hs; inv_close
+
 theorem inv_beginWrite (s s' : St α) (h : WInv s) (hs : step s .beginWrite = some s') : WInv s' := by
   obtain ⟨fifo, owner, execLe, excl, idleClean, idleFlushed, heldFlushed, storeReady, flushReady, putReady, len1Ready,
     noStrand, flushedLe, syncNoSender, asyncNoLock, brokenMono, noOwnerBatch, failedBroken, writevBatch, putPos, qLe, batchLe, pollRoom⟩ := h
@@ -286,6 +292,7 @@ theorem inv_step (s s' : St α) (a : Act α) (h : WInv s) (hs : step s a = some 
   cases a with
   | enqueue p => exact inv_enqueue s s' p h hs
   | noSpace => exact inv_noSpace s s' h hs
+  | parentCancel => exact inv_parentCancel s s' h hs
   | beginWrite => exact inv_beginWrite s s' h hs
   | rejectWrite => exact inv_rejectWrite s s' h hs
   | abortCtx => exact inv_abortCtx s s' h hs
